@@ -454,7 +454,9 @@ func (c *Float) Ident() string {
 			}
 			return fmt.Sprintf("0x%c%016X%016X", hexPrefix, a, b)
 		}
-		f, acc := float128ppc.NewFromBig(c.X)
+		// Note: float128ppc.NewFromBig sets the precision and rounding mode of its
+		// argument; pass a copy as printing may not alter the constant.
+		f, acc := float128ppc.NewFromBig(new(big.Float).Copy(c.X))
 		if acc != big.Exact {
 			log.Printf("unable to represent floating-point constant %v of type %v exactly; please submit a bug report to llir/llvm with this error message", c.X, c.Typ)
 		}
